@@ -359,6 +359,13 @@ fn gen_alpha(s: &mut Src, exh: u32) -> Vec<AOp> {
         let pos = s.below(ops.len() + 1);
         ops.insert(pos, AOp::Clear);
     }
+    // one memory in eight is not new: it already holds 55..256 facts that carry none of the queried fields
+    if s.chance(1, 8) {
+        let k = crate::c17::warm_count(s).min(256);
+        let mut pre: Vec<AOp> = (0..k).map(|_| AOp::Insert(vec![])).collect();
+        pre.append(&mut ops);
+        ops = pre;
+    }
     ops
 }
 
